@@ -152,6 +152,62 @@ def name_probe():
     return bad
 
 
+def separator_probe():
+    """(1) calls with MANY positional arguments against calls whose keyword items spell the same values: their
+    keys must differ (the positional / keyword separator is always there) - beyond the exhaustive table,
+    which stops at two positional arguments; the one known exception is finding D14 (a positional None
+    followed by what looks like the separator's continuation).  (2) results that are None or falsy are
+    results like any other: the repeated call is served from the cache by every decorator"""
+    import diskcache
+    from diskcache.core import args_to_key
+    bad = []
+    pairs = [(((1, None, 'a', 2), {}), ((1,), {'a': 2})),
+             (((1, 'a', 2), {}), ((1,), {'a': 2})),
+             (((None,), {}), ((), {})),
+             (((1, None), {}), ((1,), {})),
+             (((None, 'a', 1), {}), ((), {'a': 1})),
+             (((1, 2, None, 'b', 3), {}), ((1, 2), {'b': 3}))]
+    for (a1, k1), (a2, k2) in pairs:
+        for typed in (False, True):
+            x, y = args_to_key(('f',), a1, k1, typed, ()), args_to_key(('f',), a2, k2, typed, ())
+            if x == y:
+                msg = 'D14-probe ' if any(v is None for v in a1[:-1]) and not k1 and a1[-1] is None else ''
+                bad.append(msg + 'args_to_key gives f%r %r and f%r %r one key %r (typed=%s): two different calls share a cache entry' % (a1, k1, a2, k2, x, typed))
+    root = os.environ.get('VERIF_SCRATCH') or tempfile.gettempdir()
+    d = tempfile.mkdtemp(prefix='memofalsy-', dir=root)
+    try:
+        from diskcache.djangocache import DjangoCache
+        kinds = [('Cache.memoize', lambda dd: diskcache.Cache(dd), lambda c, f: c.memoize(name='f')(f)),
+                 ('FanoutCache.memoize', lambda dd: diskcache.FanoutCache(dd, shards=2), lambda c, f: c.memoize(name='f')(f)),
+                 ('Index.memoize', lambda dd: diskcache.Index(dd), lambda c, f: c.memoize(name='f')(f)),
+                 ('DjangoCache.memoize', lambda dd: DjangoCache(dd, {'SHARDS': 2}), lambda c, f: c.memoize(name='f')(f)),
+                 ('memoize_stampede', lambda dd: diskcache.Cache(dd), lambda c, f: diskcache.memoize_stampede(c, 100, name='f')(f))]
+        for name, make, deco in kinds:
+            c = make(os.path.join(d, name))
+            for result in (None, 0, '', False, [], 0.0):
+                ran = []
+
+                def f(x, result=result, ran=ran):
+                    ran.append(x)
+                    return result
+                w = deco(c, f)
+                key = repr(result)
+                got = [w(key), w(key), w(key)]
+                if got != [result] * 3 or [type(g) for g in got] != [type(result)] * 3:
+                    bad.append('%s: a function returning %r gives %r through the decorator' % (name, result, got))
+                if len(ran) != 1:
+                    bad.append('%s: a function returning %r was run %d times for three identical calls (the result is a result like any other)' % (name, result, len(ran)))
+            try:
+                (c.close if hasattr(c, 'close') else c.cache.close)()
+            except Exception:
+                pass
+    except Exception as e:  # noqa
+        bad.append('falsy-result probe raised %s: %s' % (type(e).__name__, str(e)[:100]))
+    finally:
+        shutil.rmtree(d, ignore_errors=True)
+    return bad
+
+
 def stampede_probe():
     """memoize_stampede with early recomputation forced (huge beta, a function that takes one tick of
     the controlled clock): the wrapper still returns what the function returns, the recomputation
@@ -358,6 +414,13 @@ def run(tier, seed, rng, known, replay):
                 violations.append({'replay': {'property': 'C16', 'kind': 'correspondence', 'line': l, 'impl': e, 'model': g, 'meta': repr(meta),
                                               'model_part': 'DC.Memo.call'}, 'found_input': False,
                                    'what': 'memoize wrapper differs from the model at %s: impl %s model %s (%r)' % (l[:90], e, g, meta)})
+    for v in separator_probe():
+        k = base.match_known(known, {'cfg': {}}, None, v)
+        if k is not None:
+            if k['what'] not in known_hits:
+                known_hits.append(k['what'])
+        elif len([x for x in violations if x['replay'].get('kind') == 'separator-probe']) < 2:
+            violations.append({'replay': {'property': 'C16', 'kind': 'separator-probe', 'acceptor': v}, 'found_input': True, 'what': v})
     for v in stampede_probe()[:2]:
         violations.append({'replay': {'property': 'C16', 'kind': 'stampede-probe', 'acceptor': v}, 'found_input': True, 'what': v})
     for v in name_probe()[:2]:
